@@ -165,6 +165,56 @@ theorem isomap_permutation_equivariant {N : Nat} (π : Equiv.Perm (Fin N)) (δ :
     ext i j
     simp [Matrix.mul_apply, Matrix.submatrix_apply]
 
+/-! ## Laplacian Eigenmaps -/
+section le
+open TapkeeVerif.LeCompose TapkeeVerif.Laplacian TapkeeVerif.SpectralLocal
+
+/-- **laplacian_eigenmaps_scale_invariant.**  Scale every distance by `c > 0` and the kernel width by `c²` (the width
+    divides the SQUARED distance, C09 `heat_argument`): the composed Laplacian Eigenmaps model (`Props/C09Compose.lean`)
+    returns the same `find_neighbors` result, the same `(L, D)` — every heat value is unchanged — and therefore, the solver
+    being handed the identical pencil, the same eigenpairs and the same embedding. -/
+theorem laplacian_eigenmaps_scale_invariant (δ : Nat → Nat → K) {N : Nat} (hN : 0 < N) {k : Nat} (hk : 1 ≤ k)
+    (hkN : k ≤ N - 1) {d : Nat} (hd : 1 + d ≤ N) (width : K) (heat : K → K) (hheat : ∀ x, 0 < heat x)
+    {c : K} (hc : 0 < c)
+    (search : Nat → Graph) (hlen : ∀ k, (search k).length = N)
+    (hexact : ∀ k, k ≤ N - 1 → ∀ u (hu : u < (search k).length), IsExactKnn δ (List.range N) k u (search k)[u])
+    (solver : Mat N N K → Vec N K → Mat N N K × Vec N K) :
+    ∃ o o', leEmbedModel δ N k true d hd width heat search solver = .ok o ∧
+      leEmbedModel (fun a b => c * δ a b) N k true d hd (c ^ 2 * width) heat search solver = .ok o' ∧
+      o'.found = o.found ∧ o'.L = o.L ∧ o'.D = o.D ∧ o'.V = o.V ∧ o'.lam = o.lam ∧ o'.Y = o.Y := by
+  obtain ⟨o, ho, -, -, ⟨hu, -, hLD, -⟩, ⟨hS, hY, -⟩⟩ :=
+    laplacian_eigenmaps_end_to_end δ hN hk hkN hd width heat hheat search hlen hexact solver
+  obtain ⟨o', ho', -, -, ⟨hu', -, hLD', -⟩, ⟨hS', hY', -⟩⟩ :=
+    laplacian_eigenmaps_end_to_end (fun a b => c * δ a b) hN hk hkN hd (c ^ 2 * width) heat hheat search hlen
+      (fun k hk' u hu => isExactKnn_scale hc (hexact k hk' u hu)) solver
+  have hfound : o'.found = o.found := by
+    have h1 := le_model_found ho
+    have h2 := le_model_found ho'
+    rw [h1] at h2
+    injection h2 with h2
+    exact h2.symm
+  have hpair : (o'.L, o'.D) = (o.L, o.D) := by
+    rw [hLD', hLD]
+    exact computeLaplacian_scale hc.ne' heat δ width o.found o'.found hfound hu hu'
+  have hL : o'.L = o.L := congrArg Prod.fst hpair
+  have hD : o'.D = o.D := congrArg Prod.snd hpair
+  have hVl : (o'.V, o'.lam) = (o.V, o.lam) := by rw [hS', hS, hL, hD]
+  have hV : o'.V = o.V := congrArg Prod.fst hVl
+  exact ⟨o, o', ho, ho', hfound, hL, hD, hV, congrArg Prod.snd hVl, by rw [hY', hY, hV]⟩
+
+/-- non-vacuity: the two-sample instance of `Props/C09Compose.lean`, `c = 3`, width `1 ↦ 9` -/
+example : ∃ o o', leEmbedModel exδ2 2 1 true 1 (by decide) 1 exHeatLe (bruteSearch exδ2 2) exLeSolver = .ok o ∧
+    leEmbedModel (fun a b => 3 * exδ2 a b) 2 1 true 1 (by decide) (3 ^ 2 * 1) exHeatLe (bruteSearch exδ2 2) exLeSolver
+      = .ok o' ∧ o'.L = o.L ∧ o'.D = o.D ∧ o'.Y = o.Y := by
+  obtain ⟨o, o', ho, ho', -, hL, hD, -, -, hY⟩ :=
+    laplacian_eigenmaps_scale_invariant exδ2 (N := 2) (by decide) (k := 1) (by decide) (by decide) (d := 1) (by decide) 1
+      exHeatLe exHeatLe_pos (c := 3) (by norm_num) (bruteSearch exδ2 2) (bruteSearch_length exδ2 2)
+      (fun k hk => bruteSearch_exact (by decide)
+        (fun i j _ _ => by unfold exδ2; simp only [if_true]; split_ifs <;> norm_num) k hk) exLeSolver
+  exact ⟨o, o', ho, ho', hL, hD, hY⟩
+
+end le
+
 /-! ### Non-vacuity
 
 Scale: the four samples of `Props/C04Compose.lean` (`exδN`, one k doubling), `c = 3`; the original run uses the solver
